@@ -96,3 +96,7 @@ func TestVerifRun(t *testing.T) {
 	}
 	simcore.WorkerMain(simcore.Spec{Property: prop, Engine: "closesim", Run: run})
 }
+
+func zzSigHashes(tx *wire.MsgTx, fetcher txscript.PrevOutputFetcher) *txscript.TxSigHashes {
+	return txscript.NewTxSigHashes(tx, fetcher)
+}
